@@ -155,6 +155,9 @@ func StartNode(store *raftlog.RaftDiskStorage, nodeId uint64, database string, i
 		Messages:       make(chan *raftpb.Message, config.RaftMsgCacheSize),
 	}
 	n.initIdentity()
+	// propose ids must not be reused by a later incarnation of this partition: entries proposed before a
+	// restart may still be committed afterwards and would acknowledge a new writer with the same id.
+	n.proposeId.Store(uint64(n.startTime.UnixNano()) % (maxProposeId / 2))
 	return n
 }
 
